@@ -796,6 +796,7 @@ def run(ctx):
         if ok is not True:
             res.fail("corr", "C19:glue:" + tool, {"kind": "glue", "tool": tool},
                      "public entry points disagree with the importer on tests/184D: %r" % (ok,))
+    __import__("corr.fn_common", fromlist=["run_fn"]).run_fn(ctx, res, "C19")  # regenerated functions vs the real ones (tools/py2lean.py)
     return res
 
 
